@@ -11,6 +11,7 @@ from __future__ import annotations
 from collections import Counter
 
 from mc.checks import c04
+from mc.drivers import bpm
 from mc.engine import e1
 from mc.engine.core import Collector, Result, Violation, pmap
 
@@ -420,6 +421,64 @@ def detached_metadata_cases():
     return fails, n
 
 
+def check_after_refused_insert():
+    """insert_nested with a wire that cannot be used (it lives inside another nested region) is refused; whatever the
+    refusal leaves in A, A stays a consistent hierarchy and the next insertion is an isomorphic embedding again."""
+    import json
+
+    from hugr import tys
+    from hugr.build.dfg import Dfg
+    from hugr.std.logic import Not
+
+    fails = []
+    for deletions in (0, 1, 2):
+        outer = Dfg(tys.Bool)
+        (a,) = outer.inputs()
+        spare = [outer.add(Not(a)) for _ in range(2)]
+        region = outer.add_nested(a)
+        region.set_outputs(*region.inputs())
+        for sp in spare[:deletions]:
+            outer.hugr.delete_node(sp)  # free indices for the copies to take
+        tmpl = bpm._frag_dfg()
+        try:
+            outer.insert_nested(tmpl, region.inputs()[0])
+            fails.append(("refused-insert:accepted", "insert_nested accepted a wire from inside a sibling region"))
+            continue
+        except Exception:  # noqa: BLE001
+            pass
+        h = outer.hugr
+        tag = f"refused-insert:{deletions}-freed"
+        for stage in ("after-refusal", "after-next-insert"):
+            if stage == "after-next-insert":
+                good = bpm._frag_dfg()
+                b_before = dump(good.hugr)
+                node = outer.insert_nested(good, a)
+                if [repr(h[c].op) for c in h.children(node)] != [repr(good.hugr[c].op) for c in good.hugr.children(good.hugr.root)]:
+                    fails.append((f"{tag}:next-insert:children", f"children of the image after a refused insertion: {[repr(h[c].op) for c in h.children(node)]}"))
+                if dump(good.hugr) != b_before:
+                    fails.append((f"{tag}:next-insert:B-modified", "B modified"))
+            listed = Counter()
+            for n in h:
+                for c in h.children(n):
+                    listed[c.idx] += 1
+                    try:
+                        if h[c].parent is None or h[c].parent.idx != n.idx:
+                            fails.append((f"{tag}:{stage}:child-disowns-parent", f"node {c.idx} is listed as a child of {n.idx} but names {h[c].parent} as its parent"))
+                    except KeyError:
+                        fails.append((f"{tag}:{stage}:dead-child", f"children({n.idx}) lists the deleted node {c.idx}"))
+            for n in h:
+                if n != h.root and listed[n.idx] != 1:
+                    par = h[n].parent
+                    fails.append((f"{tag}:{stage}:orphan", f"live node {n.idx} ({h[n].op!r}) is in {listed[n.idx]} children lists; it names {par} as its parent"))
+                    break
+    seen, out = set(), []
+    for sig, msg in fails:
+        if sig not in seen:
+            seen.add(sig)
+            out.append((sig, msg))
+    return out
+
+
 def run(tier: str, seed: int) -> Result:
     global _M
     col = Collector()
@@ -436,6 +495,8 @@ def run(tier: str, seed: int) -> Result:
             col.add(sig, msg, {"builder": name})
     for sig, msg in check_fragment_unchanged():
         col.add(sig, msg, {"builder": "fragment-unchanged"})
+    for sig, msg in check_after_refused_insert():
+        col.add(sig, msg, {"builder": "after-refused-insert"})
     dfails, n_det = detached_metadata_cases()
     for sig, msg in dfails:
         col.add(sig, msg, {"builder": "detached-metadata"})
@@ -484,6 +545,8 @@ def replay(case) -> list[Violation]:
     if "builder" in case:
         if case["builder"] == "fragment-unchanged":
             return [Violation(s, m, case) for s, m in check_fragment_unchanged()]
+        if case["builder"] == "after-refused-insert":
+            return [Violation(s, m, case) for s, m in check_after_refused_insert()]
         if case["builder"] == "detached-metadata":
             return [Violation(s, m, case) for s, m in detached_metadata_cases()[0]]
         for name, thunk, ff, rf in builder_cases():
